@@ -73,11 +73,16 @@ Blank(path, et, nm, lvl) ==
 
 IntTypes == {"uint8", "sint8", "uint16", "sint16", "uint32", "sint32",
              "uint64", "sint64"}
+(* datetime values: an interval and one timestamp per UTC offset class of  *)
+(* CimWire!DtOffsetClass (zero, +-whole hours, +-not whole hours: -210 and *)
+(* -030, where truncating hours and taking minutes apart differ)           *)
+DtVals == {"d:iv"} \cup DtTsToks
+DtValsSmall == {"d:iv", "d:ts"}
 ValSpace(t) ==
   CASE t = "string"   -> StrVals
     [] t = "char16"   -> {<<c>> : c \in CharVals}
     [] t = "boolean"  -> {"b:T", "b:F"}
-    [] t = "datetime" -> {"d:ts", "d:iv"}
+    [] t = "datetime" -> DtVals
     [] t \in IntTypes -> {"i:min", "i:max"}
     [] t = "numeric"  -> {"i:int"}
     [] OTHER          -> {"r:frac", "r:nan", "r:inf"}
@@ -406,6 +411,27 @@ ReqKeepsOwnKeys ==
 EmitKeyProp ==
   (KeyRels(els) # {} /\ els[last].et = "kb" /\ Len(cur) = 2) =>
      PrintT(<<"KEYPROP", mode, els, [i \in DOMAIN els |-> KeyRel(els, i)]>>)
+
+(* CIMDateTime.minutes_from_utc rewritten as hours (truncated toward zero)  *)
+(* plus minutes (never negative): CimWireMCDtTrunc.cfg must FAIL            *)
+(* ImplMeetsReq with a timestamp west of UTC by a non-whole number of hours *)
+WDtTrunc == [WFixed EXCEPT !.dtOffset = "trunc"]
+(* the offset classes are really all there                                 *)
+ASSUME {DtOffsetClass(DtOff(t)) : t \in DtTsToks}
+          = {"zero", "poswhole", "negwhole", "posfrac", "negfrac"}
+ASSUME \A t \in DtTsToks : MinutesFromUtc(DtOff(t), "days") = DtOff(t)
+(* enumeration for the binding (CimWireMCDt.cfg, one worker): every tree   *)
+(* with a datetime value in its last element (every value position x shape *)
+(* x offset class; one datetime element per tree), with the offset class   *)
+(* per element                                                             *)
+DtClassOf(el) ==
+  LET ts == {k \in DOMAIN el.val : el.val[k] \in DtTsToks} IN
+  IF el.type # "datetime" \/ ts = {} THEN "none"
+  ELSE DtOffsetClass(DtOff(el.val[CHOOSE k \in ts : TRUE]))
+EmitDt ==
+  (/\ DtClassOf(els[last]) # "none" /\ nattr = 0
+   /\ Cardinality({i \in DOMAIN els : els[i].type = "datetime"}) = 1) =>
+     PrintT(<<"DTTREE", mode, els, [i \in DOMAIN els |-> DtClassOf(els[i])]>>)
 
 (* a wrong reading of DSP0201 (PROPAGATED defaulting to true): the          *)
 (* requirement must reject it (CimWireMCBadNorm.cfg must FAIL)              *)
